@@ -150,6 +150,11 @@ def _cases(tier):
             cases.append({"hand": arg, "obs": ob, "agree": ok, "F": F})
             if "update" in F or not F:
                 cases.append({"hand": arg, "obs": ob, "agree": ok, "F": F, "never": True})
+    # one class name bound to classes of different kinds from test to test, user-controlled parts among the arguments
+    for arg, ob, ok in LOCAL_HAND:
+        for F in FS:
+            for kind in LOCAL_KINDS:
+                cases.append({"hand": arg, "obs": ob, "agree": ok, "F": F, "local": kind})
     for st, ob in STAR:
         for F in FS:
             cases.append({"star": st, "obs": ob, "F": F})
@@ -228,6 +233,15 @@ HAND = [
 ]
 
 
+LOCAL_KINDS = {
+    "dc": "    @dataclass\n    class Item:\n        a: object\n        b: int = 0\n",
+    "nt": "    class Item(NamedTuple):\n        a: object\n        b: int = 0\n",
+    "at": "    @attrs.define\n    class Item:\n        a: object\n        b: int = 0\n",
+}
+LOCAL_HAND = [("Item(a=Is(1), b=2)", "Item(a=1, b=3)", True), ("Item(a=f\"{'s'}0\", b=2)", "Item(a='s0', b=3)", True), ("[Item(a=Is(1), b=2), 0]", "[Item(a=1, b=3), 1]", True),
+              ("Item(a=[Is(1), 5], b=2)", "Item(a=[1, 6], b=2)", True), ("Item(a=Is(9), b=2)", "Item(a=1, b=3)", False)]
+
+
 # user-controlled parts inside bounds, members and sub-snapshot values whose comparison holds: no category has anything to do there
 HAND_OPS = [
     "assert [1] <= snapshot([Is(1)])", "assert [1] >= snapshot([Is(1)])", "assert ['s0'] <= snapshot([f\"{'s'}0\"])", "assert 's0' >= snapshot(f\"{'s'}0\")",
@@ -253,6 +267,8 @@ def _site(i, c):
         return "def test_%d():\n    %s\n" % (i, c["handop"].replace("; ", "\n    "))
     if "hand" in c and c.get("never"):
         return "def test_%d():\n    s = snapshot(%s)\n" % (i, c["hand"])
+    if "hand" in c and c.get("local"):
+        return "def test_%d():\n%s    assert %s == snapshot(%s)\n" % (i, LOCAL_KINDS[c["local"]], c["obs"], c["hand"])
     if "hand" in c:
         return "def test_%d():\n    assert %s == snapshot(%s)\n" % (i, c["obs"], c["hand"])
     if "star" in c and c.get("never"):
@@ -404,6 +420,8 @@ def _analyze(c, i, before, after, rx, ctx):
 def _judge(cases):
     star = any("star" in c or "*" in c.get("reeval", "") for c in cases)
     hdr = DC3 + DC5 + HAND_PRE + (STAR_PRE if star else "")
+    if any(c.get("local") for c in cases):
+        hdr = "from dataclasses import dataclass\nfrom typing import NamedTuple\nimport attrs\n" + hdr
     return batch.one_file(cases, _site, lambda c: ["Is"], cases[0]["F"], _analyze, header=hdr)
 
 
@@ -414,4 +432,4 @@ def run_case(case):
 def run_task(task):
     return batch.run_batched(task["cases"], _judge,
                              label=lambda c: "ok:handop" if "handop" in c else "ok:hand" if "hand" in c else "ok:star" if "star" in c else ("ok:reeval" if "reeval" in c else "ok:defaults" if "dflt" in c else "ok:%s:%s" % (c["c"], c["o"][0])),
-                             key=lambda c: repr(sorted(c.items())))
+                             key=lambda c: repr(sorted(c.items())), strict_batch=True)
